@@ -10,7 +10,7 @@ V=/verif; H=$V/harness; T=$H/target-cov; P=/tmp/verif_cov_prof
 BIN=$(rustc +nightly --print sysroot)/lib/rustlib/x86_64-unknown-linux-gnu/bin
 [ -f $H/Cargo.lock ] || cp /repo/Cargo.lock $H/Cargo.lock
 rm -rf $P; mkdir -p $P $V/coverage
-( cd $H && CARGO_NET_OFFLINE=true RUSTFLAGS="-Cinstrument-coverage" CARGO_TARGET_DIR=$T cargo +nightly build --offline --quiet ) || exit 2
+( cd $H && LLVM_PROFILE_FILE="$P/build-%p-%m.profraw" CARGO_NET_OFFLINE=true RUSTFLAGS="-Cinstrument-coverage" CARGO_TARGET_DIR=$T cargo +nightly build --offline --quiet ) || exit 2
 N=4
 for p in $(seq -w 1 19); do
   for i in $(seq 0 $((N-1))); do
@@ -21,7 +21,7 @@ for p in $(seq -w 1 19); do
   while [ $(jobs -r | wc -l) -ge 16 ]; do sleep 0.5; done
 done
 wait
-$BIN/llvm-profdata merge -sparse $P/*.profraw -o $P/all.profdata || exit 2
+$BIN/llvm-profdata merge -sparse $P/C*.profraw -o $P/all.profdata || exit 2
 $BIN/llvm-cov report $T/debug/harness -instr-profile=$P/all.profdata --ignore-filename-regex='(\.cargo|/rustc/|/verif/|rustlib)' > $V/coverage/SUMMARY.txt
 $BIN/llvm-cov export $T/debug/harness -instr-profile=$P/all.profdata --ignore-filename-regex='(\.cargo|/rustc/|/verif/|rustlib)' -format=lcov > $P/all.lcov
 python3 - "$P/all.lcov" > $V/coverage/uncovered_functions.txt <<'PY'
